@@ -33,3 +33,15 @@ def replay_roundtrip(lengths, blocked, api):
     if got != recs:
         return True, 'read back %d records (lengths %s), wrote %s' % (len(got), [len(g) for g in got][:5], lengths), 'C03/content'
     return False, 'ok', None
+
+
+def replay_default_reader(record):
+    from cardutil import mciipm
+    data = mciipm.vbs_list_to_bytes([record])
+    try:
+        got = mciipm.vbs_bytes_to_list(data)
+    except mciipm.MciIpmDataError as e:
+        return True, 'plain VBS data refused: %s' % e, 'C03/default-reader'
+    if got != [record]:
+        return True, 'read back %d records, first of %d bytes' % (len(got), len(got[0]) if got else 0), 'C03/default-reader'
+    return False, 'ok', None
